@@ -139,21 +139,9 @@ def borrowed_fields(db, E, rec):
     return borrowed, fields
 
 
-def _pure_ops(ops, floor, what):
-    """R-QUERYPURE restricted to some query operations and to the iterator classes those operations create."""
-    def run(db, rep):
-        qm = [(k, op, m) for k, op, m in query_methods(db) if op in ops]
-        cone = db.closure([m for _, _, m in qm])
-        its = [i for i in iterator_classes(db) if any(db.funcs[fid].is_ctor and db.funcs[fid].rec == i for fid in cone)]
-        _querypure(db, rep, qm, its)
-    rule("R-PURE-" + what, floor, "R-QUERYPURE restricted to %s and the iterators they return: no write to dictionary state, "
-                                  "globals/statics or borrowed memory" % "/".join(ops))(run)
-
-
-_pure_ops(("locate", "extract"), 24, "BASIC")
-_pure_ops(("locatePrefix", "extractPrefix"), 40, "PREFIX")
-_pure_ops(("locateSubstr", "extractSubstr"), 30, "SUBSTR")
-_pure_ops(("locateRank", "extractRank"), 24, "RANK")
+# (Per-operation variants R-PURE-BASIC/-PREFIX/-SUBSTR/-RANK used to be registered under C01-C05.  They were withdrawn: a query-side
+# cache that is written correctly does not break those properties, and the negative controls benign/R4_* contain such caches; the
+# rule is kept where the property itself states immutability, C14.)
 
 
 @rule("R-QUERYPURE", 120, "no query of any kind, and no iterator step, writes dictionary state, a global, or memory "
